@@ -52,6 +52,24 @@ def _install_cancel_recorder():
     cancel._verif_wrapped = True
     common._Future.cancel = cancel
 
+    # plain stdlib futures (thread pool / sync executor): record cancel() on exactly that class
+    import concurrent.futures._base as base
+
+    sorig = base.Future.cancel
+
+    def scancel(self):
+        if type(self) is not base.Future:
+            return sorig(self)
+        s = vsched.cur_sched()
+        if s is None or s.aborting:
+            return sorig(self)
+        s.record("lcancel_call", fid=id(self), cls="Future")
+        r = sorig(self)
+        s.record("lcancel_ret", fid=id(self), result=r)
+        return r
+
+    base.Future.cancel = scancel
+
 
 _install_cancel_recorder()
 
